@@ -11,6 +11,7 @@ the user function ran, the status class and the order of START / CHUNK / ITERCLO
 also checked for what the abstraction hides: status and header types, bytes chunks, Content-Length, and
 wsgiref.validate."""
 import io
+import itertools
 import json
 import wsgiref.util
 import wsgiref.validate
@@ -65,6 +66,8 @@ def shards(tier):
     for bp in BODY_PROTOS:
         for chunked in (True, False):
             out.append({'kind': 'bodies', 'proto': bp, 'chunked': chunked, 'tier': tier})
+    for fam in ('json', 'soap11', 'xml'):
+        out.append({'kind': 'lengths', 'fam': fam, 'tier': tier})
     for fam in ('json', 'soap11'):
         for chunked in (True, False):
             for first in HIST_KINDS:
@@ -201,6 +204,64 @@ def run_bodies(shard, res, only=None):
             res['outcomes']['conforms' if ok else 'differs'] = res['outcomes'].get('conforms' if ok else 'differs', 0) + 1
             if ok:
                 res['nontrivial'] += 1
+
+
+# ---- hostile CONTENT_LENGTH values: whatever the header says, at most max_content_length bytes are read
+LENGTHS = ['-1', '-0', '-99', '+5', ' 5', '5 ', '5.0', '5e0', '0x10', 'abc', '', ' ', '99999999999999999999', '١٢', '1,0', '\x00', '5\n5', '0']
+
+
+def run_lengths(shard, res, only=None):
+    from spyne.server.wsgi import WsgiApplication
+    global UNIT
+    fam = shard['fam']
+    UNIT = unit_for(fam)
+    for cl, B, L, chunked, short in itertools.product(LENGTHS, (1, 3), (2,), (True, False), (False, True)):
+        key = [cl, B, L, chunked, short]
+        if only is not None and only != key:
+            continue
+        h = harness.DictHarness(program(), 'json', 'soft') if fam == 'json' else harness.XmlHarness(program(), fam, 'soft')
+        b = h.b
+        wa = WsgiApplication(h.app, chunked=chunked, max_content_length=L * UNIT)
+        b.rec.reset()
+        b.rec.script['m'] = ('ret', 6)
+        body = document('soap11' if fam == 'soap11' else 'json', 'success', B) if fam != 'xml' else None
+        if fam == 'xml':
+            head, tail = ('<t:m xmlns:t="%s"><t:a>5</t:a>' % TNS).encode(), b'</t:m>'
+            body = head + b' ' * (B * UNIT - len(head) - len(tail)) + tail
+        stream = drv.CountingInput(body, short=short)
+        env = drv.environ('POST', '/', '', body, content_type='application/json' if fam == 'json' else 'text/xml; charset=utf-8', content_length=cl, stream=stream)
+        wsgiref.util.setup_testing_defaults(env)
+        env['wsgi.input'] = stream
+        env['CONTENT_LENGTH'] = cl
+        res['evaluations'] += 1
+        casedoc = {'shard': shard, 'only': key}
+
+        def V(kind_, detail, what):
+            res['violations'].append({'sig': 'C13|length-%s|%s|%s|%s' % (kind_, fam + (',chunked' if chunked else ',unchunked'), 'body>limit' if B > L else 'body<=limit', detail),
+                                      'what': '[%s chunked=%s CONTENT_LENGTH=%r body=%d bytes limit=%d bytes short reads=%s] %s' % (fam, chunked, cl, len(body), L * UNIT, short, what),
+                                      'case': casedoc, 'count': 1})
+        o = drv.call_wsgi(wa, env)
+        ok = True
+        if o.escaped is not None:
+            V('escape', '%s@%s' % (type(o.escaped).__name__, o.escaped_where), 'exception out of the WSGI callable: %r' % (o.escaped,))
+            continue
+        if stream.given > L * UNIT:
+            V('read-bound', '', 'read %d bytes from wsgi.input, max_content_length is %d' % (stream.given, L * UNIT))
+            ok = False
+        if len(b.rec.calls) and B > L:
+            V('function-ran', '', 'the user function ran although the request body is longer than max_content_length')
+            ok = False
+        if o.start_calls != 1:
+            V('start-response', str(o.start_calls), 'start_response called %d times' % o.start_calls)
+            ok = False
+        st = (o.status or '')[:1]
+        if st not in ('2', '4', '5') or (st == '5' and fam == 'json'):
+            V('status', (o.status or '')[:3], 'status %r for a request with a hostile CONTENT_LENGTH' % (o.status,))
+            ok = False
+        res['cov']['hostile_lengths'] = res['cov'].get('hostile_lengths', 0) + 1
+        res['outcomes']['conforms' if ok else 'differs'] = res['outcomes'].get('conforms' if ok else 'differs', 0) + 1
+        if ok:
+            res['nontrivial'] += 1
 
 
 # ---- histories of requests on ONE WsgiApplication: what an earlier request left behind (cached documents, flags)
@@ -399,6 +460,10 @@ def collapse(tr):
 
 def run_shard(shard, only=None):
     res = {'evaluations': 0, 'nontrivial': 0, 'outcomes': {}, 'violations': [], 'samples': [], 'cov': {'replays': 0}, 'notes': {}}
+    if shard.get('kind') == 'lengths':
+        run_lengths(shard, res, only)
+        from vf.props.c01 import compress
+        return compress(res)
     if shard.get('kind') == 'histories':
         run_histories(shard, res, only)
         from vf.props.c01 import compress
